@@ -228,6 +228,8 @@ FIXED_CLAUSE_SETS = [
     'finishcode A, B;\nparser { greedy case { prio 2 /[0-9]+/ -> { "!"; finish A; } prio 5 "42" -> { finish B; } } }',
     'finishcode A, B;\nparser { greedy case { prio 1 /[a-z]+/ -> { "!"; finish A; } prio 2 "abc" -> { } } ";"; finish B; }',
     'finishcode A, B;\nparser { greedy case { prio 3 "7", "77" -> { } prio 2 /[0-9]+/ -> { "x"; finish A; } } "y"; finish B; }',
+    # multi-label clauses whose block starts with an action and goes on with a statement that may match nothing: the action belongs to every label
+    'finishcode A, B;\nparser { case { "G", "O" -> { finish A; / */; } "P", "D" -> { finish B; /-?/; } } "/"; }',
     # three clauses finishing on the same string, the two highest tie: must be rejected (C09), never resolved silently
     'finishcode A, B, C;\nparser { greedy case { /[a-z]+/ -> { "!"; finish A; } prio 1 { "if" -> { "!"; finish B; } /i[fs]/ -> { "!"; finish C; } } } }',
     'finishcode A, B, C;\nparser { greedy case { /[0-9]+/ -> { "!"; finish A; } prio 2 "77" -> { "!"; finish B; } prio 2 /7[67]/ -> { "!"; finish C; } } }',
@@ -379,4 +381,6 @@ def wait_programs(pat):
             ('try', d + 'parser { try { wait %s; finish OKM; } catch { finish HND; } }\n' % pat),
             ('prefix', d + 'parser { "s"; wait %s; finish OKM; }\n' % pat),
             ('try-prefix', d + 'parser { try { "s"; wait %s; finish OKM; } catch { finish HND; } }\n' % pat),
-            ('catch', d + 'parser { try { "s"; finish OKM; } catch { wait %s; finish HND; } }\n' % pat)]
+            ('catch', d + 'parser { try { "s"; finish OKM; } catch { wait %s; finish HND; } }\n' % pat),
+            # the wait is reached by a state whose only transition is a fall-through else (empty handler): the byte that broke the try body is the wait's first byte
+            ('after-empty-catch', d + 'parser { try { "s"; "t"; } catch { } wait %s; finish OKM; }\n' % pat)]
